@@ -265,7 +265,16 @@ def stalefield(ctx):
     _expect(ctx, "R27.stale-member", c, ["stale_bad"], ["stale_good"])
 
 
-ALL = {"stalefield": stalefield, "hidden": hidden, "region_args": region_args, "widen": widen, "progress": progress, "lazyinit": lazyinit, "lanes": lanes, "atomic": atomic, "feasible": feasible, "endian": endian, "units": units, "alloc": alloc, "status": status, "ownership": ownership, "cursor": cursor, "arrays": arrays,
+def fieldfit(ctx):
+    from .rules import fieldfit as ff
+    P = program()
+    c = _sub()
+    n, nd = ff.check(c, [P.fn("fieldfit_bad"), P.fn("fieldfit_good")])
+    ctx.control("R25.field-fit decides the control tag bytes", nd >= 3, "%d of %d" % (nd, n))
+    _expect(ctx, "R25.field-fit", c, ["fieldfit_bad"], ["fieldfit_good"])
+
+
+ALL = {"fieldfit": fieldfit, "stalefield": stalefield, "hidden": hidden, "region_args": region_args, "widen": widen, "progress": progress, "lazyinit": lazyinit, "lanes": lanes, "atomic": atomic, "feasible": feasible, "endian": endian, "units": units, "alloc": alloc, "status": status, "ownership": ownership, "cursor": cursor, "arrays": arrays,
        "recursion": recursion, "narrowing": narrowing, "skeleton": skeleton, "must_pass": must_pass}
 
 
